@@ -347,7 +347,7 @@ func run(args []string) error {
 			}
 		}
 		bfs = append(bfs, Tuple(opsCoq(n.path), dumpCoq(pre), List(trans)))
-		bfsStates = append(bfsStates, map[string]interface{}{"path": opsStr(n.path), "results": strings.Join(results, " ")})
+		bfsStates = append(bfsStates, map[string]interface{}{"path": opsStr(n.path), "results": strings.Join(results, "|")})
 	}
 	if f.Extra == "count" {
 		fmt.Println("states expanded per depth:", perDepth, "truncated:", truncated)
